@@ -53,8 +53,8 @@ def gen_sequence(rng, idx):
         if kind < 0.06:
             ops.append(dict(op="call", x=x, out="raise", record=rng.random() < 0.8))
         elif kind < 0.14:
-            bad = rng.choice(["nan", "inf", "-inf", "complex", "vector", "none", "pair_in_nonhe",
-                              "scalar_in_he", "sd_zero", "sd_neg", "sd_nan", "sd_inf"])
+            bad = rng.choice(["nan", "inf", "-inf", "complex", "complex0", "npcomplex", "npcomplex0", "vector", "none", "pair_in_nonhe",
+                              "scalar_in_he", "sd_zero", "sd_neg", "sd_nan", "sd_inf", "sd_complex0"])
             ops.append(dict(op="call", x=x, out="bad", bad=bad, y=y, sd=sd, record=rng.random() < 0.8))
         elif kind < 0.22 and (level != 1):
             ops.append(dict(op="add", x=x, y=y, sd=(sd if rng.random() < 0.7 else None)))
@@ -86,6 +86,12 @@ def bad_value(bad, y, sd, he):
         v = float("-inf")
     elif bad == "complex":
         v = complex(1.0, 2.0)
+    elif bad == "complex0":            # complex TYPE with zero imaginary part: still not a real-valued scalar
+        v = complex(3.0, 0.0)
+    elif bad == "npcomplex":
+        v = np.complex128(1.0 + 2.0j)
+    elif bad == "npcomplex0":
+        v = np.complex128(3.0 + 0.0j)
     elif bad == "vector":
         v = np.array([1.0, 2.0])
     elif bad == "none":
@@ -97,7 +103,7 @@ def bad_value(bad, y, sd, he):
     elif bad.startswith("sd_"):
         if not he:
             return None
-        s = dict(sd_zero=0.0, sd_neg=-1.0, sd_nan=float("nan"), sd_inf=float("inf"))[bad]
+        s = dict(sd_zero=0.0, sd_neg=-1.0, sd_nan=float("nan"), sd_inf=float("inf"), sd_complex0=complex(0.5, 0.0))[bad]
         return (y, s)
     return (v, sd) if he else v
 
